@@ -236,6 +236,32 @@ pub fn claim_truth(z: &Zone, q: &[Vec<u8>], t: u16, claim: &Claim) -> Truth {
     if !z.in_zone(q) {
         return Truth::NotEntailable("qname-outside-zone");
     }
+    if let Claim::Expansion { labels } = claim {
+        // The answer carries the wildcard's RRSIG (Labels = `labels`, signed by this zone): that
+        // alone shows `*.<ce>` is authoritative data of the zone, hence that <ce> exists and is
+        // neither a delegation nor below one. Worlds without such a wildcard are not refutations
+        // of the NSEC3 part of the proof — the RRSIG could not be genuine there.
+        if *labels >= q.len() || *labels < z.apex.len() {
+            return Truth::Ambiguous("labels-out-of-range");
+        }
+        let w = wildcard_of(&suffix(q, *labels));
+        if !z.owns_visible_data(&w) {
+            return Truth::Ambiguous("wildcard-missing");
+        }
+        if z.occluded(q) {
+            return Truth::NotEntailable("below-cut");
+        }
+        if z.is_delegation(q) {
+            return Truth::False("qname-is-delegation");
+        }
+        if z.exists(q) {
+            return Truth::False("qname-exists");
+        }
+        if z.closest_encloser(q).len() > *labels {
+            return Truth::False("closer-encloser-exists");
+        }
+        return Truth::True;
+    }
     if z.occluded(q) {
         return Truth::NotEntailable("below-cut");
     }
@@ -260,10 +286,21 @@ pub fn claim_truth(z: &Zone, q: &[Vec<u8>], t: u16, claim: &Claim) -> Truth {
                 }
                 return if z.rrset(q, ty::DS).is_some() { Truth::False("type-present") } else { Truth::True };
             }
-            if t == ty::DS && fold(q) == z.apex {
-                // DS at the apex belongs to the parent zone; what the child's records say about it
-                // is not judged here
-                return Truth::Ambiguous("ds-at-apex");
+            if t == ty::DS {
+                // DS lives at delegation points only and is never synthesised from a wildcard. What
+                // "no DS" proofs have to exclude is a DS RRset at q (handled above: q at a cut) or a
+                // CNAME at an existing q. DS at the apex belongs to the parent zone, and "no DS at
+                // a name that does not exist" is true whatever else the zone holds: not judged.
+                if fold(q) == z.apex {
+                    return Truth::Ambiguous("ds-at-apex");
+                }
+                if !z.exists(q) {
+                    return Truth::Ambiguous("ds-at-nonexistent-name");
+                }
+                if z.authoritative_types(q).contains(&ty::CNAME) {
+                    return Truth::False("cname-present");
+                }
+                return Truth::True;
             }
             let node = if z.exists(q) {
                 fold(q)
@@ -286,26 +323,7 @@ pub fn claim_truth(z: &Zone, q: &[Vec<u8>], t: u16, claim: &Claim) -> Truth {
             }
             Truth::True
         }
-        Claim::Expansion { labels } => {
-            if at_cut {
-                return Truth::False("qname-is-delegation");
-            }
-            if z.exists(q) {
-                return Truth::False("qname-exists");
-            }
-            let ce = z.closest_encloser(q);
-            if ce.len() > *labels {
-                return Truth::False("closer-encloser-exists");
-            }
-            if ce.len() < *labels {
-                // the claimed wildcard's parent does not exist: its RRSIG could not be genuine
-                return Truth::Ambiguous("wildcard-parent-missing");
-            }
-            if !z.exists(&wildcard_of(&ce)) {
-                return Truth::Ambiguous("wildcard-missing");
-            }
-            Truth::True
-        }
+        Claim::Expansion { labels } => unreachable!("handled above: {labels}"),
     }
 }
 
@@ -322,6 +340,8 @@ pub struct Roles {
     /// the record covering the next closer name has the Opt-Out flag (and the claim is not the
     /// DS/opt-out one)
     pub nc_optout: bool,
+    /// expansion only: a record matching the query name itself is in the set
+    pub qname_matched: bool,
     pub ce: Name,
     pub nc: Option<Name>,
 }
@@ -338,6 +358,25 @@ impl Roles {
             m.join("+")
         }
     }
+}
+
+/// Closest *provable* encloser: the longest ancestor-or-self of `q` that owns an NSEC3 RR. Differs
+/// from the closest encloser only under opt-out (an empty non-terminal that exists solely because
+/// of insecure delegations has no NSEC3 RR, RFC 5155 §7.1).
+pub fn provable_encloser(z: &Zone, q: &[Vec<u8>], opt_out: bool) -> Name {
+    if !opt_out {
+        return z.closest_encloser(q);
+    }
+    let names: BTreeSet<CName> = nsec3_names(z, true).into_iter().map(CName).collect();
+    let mut k = q.len();
+    while k > z.apex.len() {
+        let cand = fold(&suffix(q, k));
+        if names.contains(&CName(cand.clone())) {
+            return cand;
+        }
+        k -= 1;
+    }
+    z.apex.clone()
 }
 
 /// Reference proof for `claim` about (q, t) in zone `z` (claim assumed true of z), evaluated on
@@ -369,12 +408,12 @@ pub fn roles(z: &Zone, q: &[Vec<u8>], t: u16, claim: &Claim, opt_out: bool, s: &
             } else if z.exists(&q) {
                 // insecure delegation left out of an opt-out chain: DS absence by §8.6 second case
                 r.sub = "ds-optout";
-                let ce = z.closest_encloser(&suffix(&q, q.len() - 1));
+                let ce = provable_encloser(z, &suffix(&q, q.len() - 1), opt_out);
                 let oo = ce_proof(&mut r, hs, &ce);
                 r.parts.push(("nc-optout", oo));
             } else {
                 r.sub = "wildcard";
-                let ce = z.closest_encloser(&q);
+                let ce = provable_encloser(z, &q, opt_out);
                 let oo = ce_proof(&mut r, hs, &ce);
                 r.nc_optout = oo;
                 let hw = hs.h(&wildcard_of(&ce));
@@ -383,7 +422,7 @@ pub fn roles(z: &Zone, q: &[Vec<u8>], t: u16, claim: &Claim, opt_out: bool, s: &
         }
         Claim::NxDomain => {
             r.sub = "nxdomain";
-            let ce = z.closest_encloser(&q);
+            let ce = provable_encloser(z, &q, opt_out);
             let oo = ce_proof(&mut r, hs, &ce);
             r.nc_optout = oo;
             let hw = hs.h(&wildcard_of(&ce));
@@ -391,6 +430,7 @@ pub fn roles(z: &Zone, q: &[Vec<u8>], t: u16, claim: &Claim, opt_out: bool, s: &
         }
         Claim::Expansion { labels } => {
             r.sub = "expansion";
+            r.qname_matched = has_match(&hq);
             let ce = suffix(&q, *labels);
             r.ce = ce.clone();
             let nc = suffix(&q, ce.len() + 1);
@@ -411,7 +451,7 @@ pub fn reference_proof(z: &Zone, q: &[Vec<u8>], claim: &Claim, opt_out: bool, ch
     let mut idx: BTreeSet<usize> = BTreeSet::new();
     let find_match = |h: &[u8]| chain.iter().position(|r| r.matches(h));
     let find_cover = |h: &[u8]| chain.iter().position(|r| r.covers(h));
-    let mut ce_proof = |idx: &mut BTreeSet<usize>, hs: &mut Hasher, ce: &Name| {
+    let ce_proof = |idx: &mut BTreeSet<usize>, hs: &mut Hasher, ce: &Name| {
         if let Some(i) = find_match(&hs.h(ce)) {
             idx.insert(i);
         }
@@ -424,10 +464,10 @@ pub fn reference_proof(z: &Zone, q: &[Vec<u8>], claim: &Claim, opt_out: bool, ch
             if let Some(i) = find_match(&hs.h(&q)) {
                 idx.insert(i);
             } else if z.exists(&q) {
-                let ce = z.closest_encloser(&suffix(&q, q.len() - 1));
+                let ce = provable_encloser(z, &suffix(&q, q.len() - 1), opt_out);
                 ce_proof(&mut idx, hs, &ce);
             } else {
-                let ce = z.closest_encloser(&q);
+                let ce = provable_encloser(z, &q, opt_out);
                 ce_proof(&mut idx, hs, &ce);
                 if let Some(i) = find_match(&hs.h(&wildcard_of(&ce))) {
                     idx.insert(i);
@@ -435,7 +475,7 @@ pub fn reference_proof(z: &Zone, q: &[Vec<u8>], claim: &Claim, opt_out: bool, ch
             }
         }
         Claim::NxDomain => {
-            let ce = z.closest_encloser(&q);
+            let ce = provable_encloser(z, &q, opt_out);
             ce_proof(&mut idx, hs, &ce);
             if let Some(i) = find_cover(&hs.h(&wildcard_of(&ce))) {
                 idx.insert(i);
@@ -447,7 +487,6 @@ pub fn reference_proof(z: &Zone, q: &[Vec<u8>], claim: &Claim, opt_out: bool, ch
             }
         }
     }
-    let _ = opt_out;
     idx.into_iter().collect()
 }
 
@@ -602,8 +641,10 @@ impl Candidates {
     pub fn build(z: &Zone, q: &[Vec<u8>], t: u16, claim: &Claim, opt_out: bool, hs: &mut Hasher, max_double: usize) -> Candidates {
         let singles = single_edits(z, q, t);
         let mut cands: Vec<Cand> = Vec::new();
-        let mut firsts: Vec<(Zone, usize, bool)> = Vec::new();
-        let mut consider = |z2: &Zone, edits: Vec<Edit>, hs: &mut Hasher, cands: &mut Vec<Cand>| -> bool {
+        // status[i]: None = edit not applicable to Z, Some(refutes the claim on its own)
+        let mut status: Vec<Option<bool>> = vec![None; singles.len()];
+        let mut firsts: Vec<(Zone, usize)> = Vec::new();
+        let consider = |z2: &Zone, edits: Vec<Edit>, hs: &mut Hasher, cands: &mut Vec<Cand>| -> bool {
             let truth = claim_truth(z2, q, t, claim);
             if truth.refutes() {
                 let chain_fps = nsec3_chain(z2, opt_out, hs).iter().map(|r| r.fp()).collect();
@@ -615,28 +656,33 @@ impl Candidates {
         };
         for (i, e) in singles.iter().enumerate() {
             let Some(z1) = apply(z, e) else { continue };
-            let refuted = consider(&z1, vec![e.clone()], hs, &mut cands);
-            firsts.push((z1, i, refuted));
+            status[i] = Some(consider(&z1, vec![e.clone()], hs, &mut cands));
+            firsts.push((z1, i));
         }
         let singles_tried = firsts.len();
-        // pairs: those whose first edit already refutes the claim come first (the second edit
-        // then only has to keep the presented records genuine), then the rest; unordered pairs
-        // on different names only
+        // unordered pairs of applicable edits on different names (such edits commute). Pairs with
+        // a member that refutes the claim on its own come first: the other edit then only has to
+        // keep the presented records genuine.
         let mut doubles_tried = 0usize;
         let name_of = |e: &Edit| match e {
             Edit::Remove(n) | Edit::SetOnly(n, _) | Edit::AddType(n, _) | Edit::SetDeleg(n, _) => n.clone(),
         };
+        let names: Vec<Name> = singles.iter().map(name_of).collect();
         'outer: for pass in 0..2 {
-            for (z1, i, refuted) in &firsts {
-                if (pass == 0) != *refuted {
-                    continue;
-                }
+            for (z1, i) in &firsts {
+                let ri = status[*i] == Some(true);
                 for (j, e2) in singles.iter().enumerate() {
-                    if j == *i || name_of(e2) == name_of(&singles[*i]) {
+                    let Some(rj) = status[j] else { continue };
+                    if j == *i || names[j] == names[*i] {
                         continue;
                     }
-                    // unordered: when both firsts are in the same pass take i < j only
-                    if j < *i && firsts.iter().any(|(_, k, r)| *k == j && *r == *refuted) {
+                    let take = match pass {
+                        // refuting first edit; when both refute, i < j only
+                        0 => ri && (!rj || *i < j),
+                        // neither refutes alone
+                        _ => !ri && !rj && *i < j,
+                    };
+                    if !take {
                         continue;
                     }
                     if doubles_tried >= max_double {
@@ -745,14 +791,14 @@ pub fn selftest() {
     for (i, o) in [("", ""), ("f", "co"), ("fo", "cpng"), ("foo", "cpnmu"), ("foob", "cpnmuog"), ("fooba", "cpnmuoj1"), ("foobar", "cpnmuoj1e8")] {
         assert_eq!(String::from_utf8(base32hex(i.as_bytes())).unwrap(), o, "base32hex({i})");
     }
-    // Appendix A chain: 11 NSEC3 RRs in this order, opt-out, c.example (insecure delegation) left out
+    // Appendix A chain: 12 NSEC3 RRs in this order, opt-out, c.example (insecure delegation) left out
     let z = rfc5155_zone();
     let mut hs = Hasher::new(&p);
     let chain = nsec3_chain(&z, true, &mut hs);
     let owners: Vec<String> = chain.iter().map(|r| String::from_utf8(base32hex(&r.hash)).unwrap()[..8].to_string()).collect();
     assert_eq!(
         owners,
-        vec!["0p9mhave", "2t7b4g4v", "2vptu5ti", "35mthgpg", "b4um86eg", "gjeqe526", "ji6neoae", "k8udemvp", "q04jkcev", "r53bq7cc", "t644ebqk"],
+        vec!["0p9mhave", "2t7b4g4v", "2vptu5ti", "35mthgpg", "b4um86eg", "gjeqe526", "ji6neoae", "k8udemvp", "kohar7mb", "q04jkcev", "r53bq7cc", "t644ebqk"],
         "RFC 5155 App. A chain owners"
     );
     for (i, r) in chain.iter().enumerate() {
@@ -815,21 +861,22 @@ pub fn selftest() {
         } else {
             assert!(cands.find(&fps).is_none(), "reference proof for {q} has a counter-model: {:?}", cands.find(&fps).map(|c| c.edits.clone()));
         }
-        // dropping any one record must open a counter-model (or leave the claim unprovable)
-        if s.len() > 1 {
-            for k in 0..s.len() {
-                let part: Vec<u64> = s.iter().enumerate().filter(|(i, _)| *i != k).map(|(_, r)| r.fp()).collect();
-                assert!(cands.find(&part).is_some(), "proof for {q} minus record {k} has no counter-model");
-            }
-        }
     }
     // the same zone without opt-out: complete proofs have no counter-model
     let chain2 = nsec3_chain(&z, false, &mut hs);
-    assert_eq!(chain2.len(), 12, "without opt-out c.example gets an NSEC3 RR");
+    assert_eq!(chain2.len(), 13, "without opt-out c.example gets an NSEC3 RR");
     for (q, t, c) in [("a.c.x.w.example.", ty::A, Claim::NxDomain), ("a.z.w.example.", ty::AAAA, Claim::NoData), ("a.z.w.example.", ty::MX, Claim::Expansion { labels: 2 })] {
         let idx = reference_proof(&z, &name(q), &c, false, &chain2, &mut hs);
         let fps: Vec<u64> = idx.iter().map(|i| chain2[*i].fp()).collect();
         let cands = Candidates::build(&z, &name(q), t, &c, false, &mut hs, 100_000);
         assert!(cands.find(&fps).is_none(), "non-opt-out reference proof for {q} has a counter-model: {:?}", cands.find(&fps).map(|c| c.edits.clone()));
+        if c == Claim::NxDomain {
+            // without the record covering the wildcard nothing excludes *.x.w.example
+            let hw = hs.h(&name("*.x.w.example."));
+            let part: Vec<u64> = idx.iter().map(|i| &chain2[*i]).filter(|r| !r.covers(&hw)).map(|r| r.fp()).collect();
+            assert_eq!(part.len(), 2);
+            let cm = cands.find(&part).expect("B.1 minus the wildcard cover must have a counter-model");
+            assert!(cm.edits.iter().any(|e| matches!(e, Edit::SetOnly(n, _) if *n == name("*.x.w.example."))), "{:?}", cm.edits);
+        }
     }
 }
